@@ -172,6 +172,24 @@ func main() {
 		}
 	case "run":
 		os.Exit(runFileMain(os.Args[2], len(os.Args) > 3))
+	case "build":
+		b, _ := os.ReadFile(os.Args[2])
+		bc := buildCaseOf(b, nil)
+		fmt.Println("proto:", bc.Proto)
+		fmt.Println("skip:", bc.Skip)
+		fmt.Println("real:", bc.Real, bc.ErrAt)
+		if bc.Skip == "" {
+			m, err := StartModel("jsight-build")
+			if err != nil {
+				fmt.Println(err)
+				os.Exit(2)
+			}
+			out, err := m.Batch([]string{bc.Proto})
+			fmt.Println("model:", out, err)
+			if len(out) == 1 {
+				fmt.Println("compare:", compareBuild(bc, out[0]))
+			}
+		}
 	case "check":
 		fsf := flag.NewFlagSet("check", flag.ExitOnError)
 		tier := fsf.String("tier", envOr("VERIF_TIER", "quick"), "quick|thorough")
